@@ -1618,7 +1618,7 @@ pub trait PseudoBooleanFunction: Function {
     /// multiple times, the last value counts).
     ///
     /// Should there be a decision node for a variable not part of the domain,
-    /// then `unknown` is used as the decision value.
+    /// then `false` is used as the decision value.
     ///
     /// Locking behavior: acquires the manager's lock for shared access.
     ///
